@@ -4,7 +4,7 @@
 use blst::min_sig::{PublicKey, SecretKey, Signature};
 use blst::{
     BLST_ERROR, blst_p1, blst_p1_add_or_double, blst_p1_affine, blst_p1_affine_compress, blst_p1_cneg,
-    blst_p1_from_affine, blst_p1_to_affine, blst_p1_uncompress,
+    blst_p1_from_affine, blst_p1_mult, blst_p1_to_affine, blst_p1_uncompress,
 };
 
 /// Some(true/false) = verdict; None = bytes are not valid group elements
@@ -46,6 +46,20 @@ pub fn sigma_add(sigma: &[u8; 48], delta: &[u8; 48], negate: bool) -> Option<[u8
             blst_p1_cneg(&mut d, true);
         }
         blst_p1_add_or_double(&mut out, &a, &d);
+        blst_p1_to_affine(&mut aff, &out);
+        blst_p1_affine_compress(bytes.as_mut_ptr(), &aff);
+    }
+    Some(bytes)
+}
+
+/// scalar (little-endian bytes, `nbits` significant bits) times a compressed G1 point
+pub fn p1_mult(point: &[u8; 48], scalar_le: &[u8], nbits: usize) -> Option<[u8; 48]> {
+    let p = uncompress(point)?;
+    let mut out = blst_p1::default();
+    let mut aff = blst_p1_affine::default();
+    let mut bytes = [0u8; 48];
+    unsafe {
+        blst_p1_mult(&mut out, &p, scalar_le.as_ptr(), nbits);
         blst_p1_to_affine(&mut aff, &out);
         blst_p1_affine_compress(bytes.as_mut_ptr(), &aff);
     }
